@@ -355,7 +355,7 @@ def coq_mismatches(ctx, tag, header, ok_fn, case_terms, shard=400, scope="Z_scop
     return mism, ok
 
 
-def coq_eval(ctx, tag, header, exprs, scope="Z_scope"):
+def coq_eval(ctx, tag, header, exprs, scope="Z_scope", preamble=""):
     """Evaluate a few expressions by vm_compute and return raw printed results (for samples/replay)."""
     wd = os.path.join(ctx.workdir(), tag)
     os.makedirs(wd, exist_ok=True)
@@ -363,6 +363,7 @@ def coq_eval(ctx, tag, header, exprs, scope="Z_scope"):
     with open(fn, "w") as f:
         f.write("From Coq Require Import ZArith NArith List Bool String.\nImport ListNotations.\n")
         f.write("Require Import TC.Base.Corr.\n" + header + "\nOpen Scope %s.\n" % scope)
+        f.write(preamble + "\n")
         for i, e in enumerate(exprs):
             f.write('Goal True. idtac "@@E %d". exact I. Qed.\nEval vm_compute in (%s).\n' % (i, e))
         f.write('Goal True. idtac "@@END". exact I. Qed.\n')
